@@ -183,7 +183,10 @@ EvMirror ==
   /\ LET \* a pair whose instruction reads its own prefix byte as data legitimately differs
          \* in that byte ("apart from the prefix byte itself"): not comparable
          selfRead == Count(Ev.dd.rd, Ev.dd.pre[22]) > 1 \/ Count(Ev.fd.rd, Ev.fd.pre[22]) > 1
-         asp == (IF selfRead \/ MirrorOK(Ev.dd, Ev.fd) THEN {} ELSE {"mirror"})
+         \* latch[k]: the pair again on a paging latch (the k-th access of the Step replaces CPU.Memory): both forms
+         \* must agree on which memory object saw which access
+         latch == "latch" \in DOMAIN Ev => \A k \in 1 .. Len(Ev.latch) : MirrorOK(Ev.latch[k][1], Ev.latch[k][2])
+         asp == (IF selfRead \/ (MirrorOK(Ev.dd, Ev.fd) /\ latch) THEN {} ELSE {"mirror"})
                 \cup (IF NoInterf(Ev.dd, Ev.dd2, 19, 20) /\ NoInterf(Ev.fd, Ev.fd2, 17, 18) THEN {} ELSE {"interf"})
      IN IF asp = {} THEN bad' = bad /\ cov' = Bump(cov, "MIRROR pair")
         ELSE /\ bad' = IF Len(bad) < MaxBad
